@@ -92,6 +92,15 @@ def make_task(d, sid, sv, stop, snapshot_bad):
             if sv.get("crash_on_cancel"):
                 raise Crash(sid)      # its cleanup fails: the exception must not vanish
             raise
+        finally:
+            # ... and it is still that snapshot when the task ends, however much later: neither the resources nor the
+            # resource FACTORIES the owner registered after the call have become visible; the factories registered
+            # before it work
+            late = [get_resource_nowait(Marker, f"after{sid}", optional=True),
+                    get_resource_nowait(Marker, f"afterfac{sid}", optional=True)]
+            early = get_resource_nowait(Marker, f"beforefac{sid}", optional=True)
+            if early is None or any(x is not None for x in late):
+                snapshot_bad.append([sid, early is not None, any(x is not None for x in late)])
     return task
 
 
@@ -122,6 +131,7 @@ async def run_case(case):
                 sv = svcs[sid]
                 stop = anyio.Event()
                 ctx.add_resource(Marker("before"), f"before{sid}")
+                ctx.add_resource_factory(lambda: Marker("beforefac"), f"beforefac{sid}", types=[Marker])
                 act = sv["action"]
                 if act == "ACancel":
                     ta = "cancel"
@@ -181,6 +191,7 @@ async def run_case(case):
                 else:
                     await start_service_task(make_task(d, sid, sv, stop, snapshot_bad), "service", teardown_action=ta)
                 ctx.add_resource(Marker("after"), f"after{sid}")       # straight after the call, no checkpoint
+                ctx.add_resource_factory(lambda: Marker("afterfac"), f"afterfac{sid}", types=[Marker])
             # EndBlock: fall out of the loop body -> the block ends
         if case.get("block_raises"):
             raise BlockError()
